@@ -75,6 +75,19 @@ func init() {
 		Outside:     []string{"casts (need package std)", "depth 4-5 trees", "float/bool/string operands"},
 	})
 
+	reg(Check{
+		ID:  "C05",
+		Pkg: "verif/harness/c05",
+		Runs: []RunDef{
+			{Fn: "H_try1", Tier: "quick", Reach: []string{"end"}},
+			{Fn: "H_try2", Tier: "quick", Reach: []string{"end"}},
+			{Fn: "H_same_object", Tier: "quick", Reach: []string{"end"}},
+		},
+		Rule:        rule + "; try/catch/finally template inside a loop inside a function with selectors for how the try body (5), the handler (5) and finally (2) exit and which class is thrown (5, incl. a Go-level error), all 250 combinations by solver-driven case split; marker trace and return value compared with the 40-line reference model of B.3",
+		Assumptions: []string{"a Go-level error (1 % 0) is a Throwable that also matches catch (Exception)"},
+		Outside:     []string{"process exit status and stderr of uncaught throwables / parse errors (decided per OS process: no symbolic dimension)", "nesting depth > 2", "hierarchies beyond the 4-class fixture"},
+	})
+
 	c17 := func(fn string, p map[string]int) RunDef {
 		return RunDef{Fn: fn, Params: p, Tier: "quick", Reach: []string{"end"}}
 	}
